@@ -30,7 +30,7 @@ func slotsOf(p *Prog) []**Expr {
 // verdictOf runs the real evaluator (twice) and the reference on p and returns the oracle's key ("" = passes)
 func verdictOf(p *Prog) string {
 	j := &judged{p: p, o: runOne(p)}
-	j.ref, _, j.err = refRun(p)
+	j.ref, j.lets, j.err = refRun(p)
 	k, _ := verdict(j)
 	return k
 }
